@@ -67,6 +67,7 @@ def selection(ck, ctx):
             ck.ob("selection", "default-want", ok, "want_file(default) happens only when no target was named and defaults exist", span=t["loc"], fn=BUILD)
         else:
             ck.ob("selection", "want-source#%d" % bb, False, "want_file in phase 2 with unrecognised source %s" % show(strip(e), 2), span=t["loc"], fn=BUILD)
+    R17.defaults_current(ck, ctx, info, "selection", "defaults-of-current-manifest")
     ck.ob("selection", "both-kinds-present", set(kinds) == {"target", "default"}, "phase 2 wants command-line targets or defaults (%s)" % sorted(kinds), span=b.loc, fn=BUILD)
     # every named target is wanted: from the lookup's Some edge, want_file is unavoidable unless it is the manifest target
     for bb, t in [x for x in info["lookups"] if x not in info["mt"]]:
